@@ -50,6 +50,35 @@ var bases = []PathSpec{
 	{Lead: true, Segs: q("é b")},                                                // "/é b": static text that needs escaping
 }
 
+// extraBases (sweep B): base paths whose static query is written by hand with '/', ':', '.'
+// unescaped in the values (values holding "//", "/./", "/../", a trailing '/'), and base paths
+// whose own segments are empty, "." or ".." (for those the reference accepts both the literal
+// and the resolved shape - the text does not choose).
+var extraBases = []PathSpec{
+	{Lead: true, Segs: q("api"), Loose: true, Query: kv("cb", "http://h/p")},                         // "/api?cb=http://h/p"
+	{Lead: true, Segs: q("api"), Loose: true, Query: kv("dir", "a/b/")},                              // "/api?dir=a/b/"
+	{Lead: true, Segs: q("api"), Loose: true, Query: kv("rel", "x/../y")},                            // "/api?rel=x/../y"
+	{Lead: true, Segs: q("api"), Loose: true, Query: kv("d", "./z", "e", "a//b")},                    // "/api?d=./z&e=a//b"
+	{Lead: true, Segs: q("api"), Trail: true, Loose: true, Query: kv("x", "1", "cb", "http://h/p/")}, // "/api/?x=1&cb=http://h/p/"
+	{Loose: true, Query: kv("cb", "http://h/p")},                                                     // "?cb=http://h/p"
+	{Segs: q("api"), Loose: true, Query: kv("rel", "../../y", "x", "1")},                             // "api?rel=../../y&x=1"
+	{Lead: true, Segs: q("a", "", "b")},                                                              // "/a//b"
+	{Lead: true, Segs: q("a", ".", "b")},                                                             // "/a/./b"
+	{Lead: true, Segs: q("a", "..", "b")},                                                            // "/a/../b"
+	{Lead: true, Segs: q("a", "b"), Trail: true},                                                     // "/a/b/"
+	{Lead: true, Segs: q("a", "..", "b"), Trail: true, Loose: true, Query: kv("rel", "x/../y")},      // "/a/../b/?rel=x/../y"
+}
+
+// extraPatterns (sweep B only): a pattern whose static query is written the same loose way
+var extraPatterns = []patternDef{
+	{PathSpec{Lead: true, Segs: q("a", "{p}"), Loose: true, Query: kv("cb", "http://h/p//", "x", "2")}, []string{"p"}}, // "/a/{p}?cb=http://h/p//&x=2"
+}
+
+// sweep T: the scheme table over a wider alphabet, one fixed request
+var schemeAlphabetT = []string{"http", "https", "ws", "wss", "HTTP", "", "gopher"}
+
+const hostB, hostT = "b.example.net", "t.example.net"
+
 type patternDef struct {
 	spec  PathSpec
 	names []string
@@ -393,6 +422,9 @@ type plan struct {
 	sPatterns []int
 	sQueries  [][]QP
 	shards    []shard
+	patternsB []patternDef
+	smallB    [][][]KV
+	listsT    [][]string
 }
 
 func buildPlan(thorough bool) *plan {
@@ -423,6 +455,29 @@ func buildPlan(thorough bool) *plan {
 			pl.shards = append(pl.shards, shard{"X", b, p, 0, len(queriesX)})
 		}
 	}
+	pl.patternsB = append(append([]patternDef{}, patterns...), extraPatterns...)
+	for _, p := range pl.patternsB {
+		pl.smallB = append(pl.smallB, smallValueMaps(p))
+	}
+	for b := range extraBases {
+		for p := range pl.patternsB {
+			pl.shards = append(pl.shards, shard{"B", b, p, 0, len(queriesX)})
+		}
+	}
+	for _, sq := range enum.Seqs(len(schemeAlphabetT), 0, 3) {
+		var l []string
+		for _, i := range sq {
+			l = append(l, schemeAlphabetT[i])
+		}
+		pl.listsT = append(pl.listsT, l)
+	}
+	for lo := 0; lo < len(pl.listsT); lo += 8 {
+		hi := lo + 8
+		if hi > len(pl.listsT) {
+			hi = len(pl.listsT)
+		}
+		pl.shards = append(pl.shards, shard{"T", 0, 0, lo, hi})
+	}
 	for _, b := range pl.sBases {
 		for _, p := range pl.sPatterns {
 			for lo := 0; lo < len(pl.lists); lo += 8 {
@@ -439,8 +494,21 @@ func buildPlan(thorough bool) *plan {
 
 // runShard enumerates one shard, calling run for every case of it.
 func (pl *plan) runShard(sh shard, run func(c *Case)) {
-	pd := patterns[sh.pattern]
+	pd := pl.patternsB[sh.pattern]
 	switch sh.sweep {
+	case "B":
+		for _, vm := range pl.smallB[sh.pattern] {
+			for _, qq := range queriesX {
+				run(&Case{Host: hostB, Base: extraBases[sh.base], Pattern: pd.spec, Names: pd.names, Params: vm, Query: qq, Rt: rtP, Op: opP, Repeat: 1})
+			}
+		}
+	case "T":
+		tb, tp := bases[findBase("/")], patterns[findPattern("/a")]
+		for _, rt := range pl.listsT[sh.lo:sh.hi] {
+			for _, op := range pl.listsT {
+				run(&Case{Host: hostT, Base: tb, Pattern: tp.spec, Names: tp.names, Rt: rt, Op: op, Repeat: 1})
+			}
+		}
 	case "P":
 		for _, vm := range pl.vmaps[sh.pattern][sh.lo:sh.hi] {
 			for _, qq := range queriesP {
@@ -544,6 +612,14 @@ func main() {
 	r.Set("value_pairs", len(pl.al.pairs))
 	r.Set("caller_query_sets", map[string]int{"sweepP": len(queriesP), "sweepQ": len(pl.qQ), "sweepS": len(pl.sQueries), "sweepX": len(queriesX)})
 	r.Set("scheme_lists", len(pl.lists))
+	var eb []string
+	for _, b := range extraBases {
+		eb = append(eb, b.Render())
+	}
+	r.Set("sweepB_base_paths", eb)
+	r.Set("sweepB_extra_pattern", extraPatterns[0].spec.Render())
+	r.Set("sweepT_scheme_alphabet", fmt.Sprintf("%q", schemeAlphabetT))
+	r.Set("sweepT_scheme_lists", len(pl.listsT))
 	r.Set("hosts", pl.hosts)
 	r.Set("executions_per_case", fmt.Sprintf("every order of setting the path parameters x %d repeats (map iteration order is sampled, not owned)", pl.al.repeat))
 	r.Set("worker_processes", sw.workers)
@@ -554,5 +630,5 @@ func main() {
 		"static text of base paths and patterns contains no '%', no '.'/'..' segments, no empty segments and no fragment",
 		"histories: the solo result of a case is its result as the only request ever built in a fresh process; Runtime fields are not reassigned between calls",
 	)
-	r.Finish("phase H (histories in one process, serial): "+hist.rule+" Phase E (single cases, in single-threaded worker processes that reuse one Runtime per (host, base path, schemes)): sweep P: every base path x every pattern x every listed parameter map x 2 caller query sets; sweep Q: every base path x every pattern x 1-4 injection-minded parameter maps x every other caller query set; sweep S: every ordered pair of scheme lists (sequences of length 0-3 over http, https, ws, wss) x 3 hosts x 2 base paths x 2 patterns x 2 query sets; sweep X: every base path x every pattern x the same few parameter maps x 6 caller query sets x 7x7 scheme lists on a fourth host. The sweeps are disjoint by construction and no sweep repeats a case, so cases are distinct; an evaluation is one CreateHttpRequest call on the real client (a case with k>=2 parameters is executed k! x repeat times). Non-trivial = a placeholder of the pattern received a value that needs escaping (or is empty, '.' or '..'), or a query name is set at two or more of the three levels, or a scheme list with several entries is offered; a history is non-trivial when two of its steps set the same query name at different levels or with different values, or use the same pattern with different values", !sw.cut && !hist.cut)
+	r.Finish("phase H (histories in one process, serial): "+hist.rule+" Phase E (single cases, in single-threaded worker processes that reuse one Runtime per (host, base path, schemes)): sweep P: every base path x every pattern x every listed parameter map x 2 caller query sets; sweep Q: every base path x every pattern x 1-4 injection-minded parameter maps x every other caller query set; sweep S: every ordered pair of scheme lists (sequences of length 0-3 over http, https, ws, wss) x 3 hosts x 2 base paths x 2 patterns x 2 query sets; sweep X: every base path x every pattern x the same few parameter maps x 6 caller query sets x 7x7 scheme lists on a fourth host; sweep B: 12 more base paths (static query values written with '/', ':' and '.' unescaped: http://h/p, a/b/, x/../y, ./z, a//b, ../../y; base path segments that are empty, '.' or '..', trailing slash) x every pattern and one pattern with such a query x the same few parameter maps x 6 caller query sets; sweep T: every ordered pair (transport, operation) of the 400 scheme lists of length 0-3 over http, https, ws, wss, HTTP, the empty string and gopher, one fixed request. The sweeps are disjoint by construction and no sweep repeats a case, so cases are distinct; an evaluation is one CreateHttpRequest call on the real client (a case with k>=2 parameters is executed k! x repeat times). Non-trivial = a placeholder of the pattern received a value that needs escaping (or is empty, '.' or '..'), or a query name is set at two or more of the three levels, or a scheme list with several entries is offered; a history is non-trivial when two of its steps set the same query name at different levels or with different values, or use the same pattern with different values", !sw.cut && !hist.cut)
 }
